@@ -3,6 +3,7 @@ package main
 // Streams on the pure / per-document layers: C11 (round-trip), C16 (criteria algebra), C18 (normalisation).
 
 import (
+	"math"
 	"fmt"
 	"reflect"
 	"sort"
@@ -47,6 +48,57 @@ func deepDoc(g *Gen, id string) map[string]interface{} {
 		m["_id"] = id
 	}
 	return m
+}
+
+// cmpTwin maps a canonical value to one that internal.Compare ranks equal but that has other Go types:
+// integers and integral floats swap kinds, times move to another zone; _id is kept
+func cmpTwin(v interface{}) interface{} {
+	const lim = 1 << 53
+	switch x := v.(type) {
+	case int64:
+		if x > -lim && x < lim {
+			return float64(x)
+		}
+		if x >= 0 {
+			return uint64(x)
+		}
+	case uint64:
+		if x < lim {
+			return float64(x)
+		}
+		if x <= math.MaxInt64 {
+			return int64(x)
+		}
+	case float64:
+		if x == math.Trunc(x) && x > -lim && x < lim {
+			if x >= 0 && int64(x)%2 == 0 {
+				return uint64(x)
+			}
+			return int64(x)
+		}
+	case time.Time:
+		if _, off := x.Zone(); off != 3600 {
+			return x.In(time.FixedZone("", 3600))
+		}
+		return x.UTC()
+	case []interface{}:
+		out := make([]interface{}, len(x))
+		for i := range x {
+			out[i] = cmpTwin(x[i])
+		}
+		return out
+	case map[string]interface{}:
+		out := map[string]interface{}{}
+		for k, e := range x {
+			if k == "_id" {
+				out[k] = e
+			} else {
+				out[k] = cmpTwin(e)
+			}
+		}
+		return out
+	}
+	return v
 }
 
 func runC11(seed int64, n int, out, backendSpec string) *RunReport {
@@ -143,6 +195,36 @@ func runC11(seed int64, n int, out, backendSpec string) *RunReport {
 			}
 		}
 		check("before reopen")
+		// rewrite some documents with values that COMPARE equal to the stored ones but have another Go type or zone
+		// (5 -> 5.0 -> uint64(5), the same instant in another zone): what is read back is what was written last
+		rewritten := 0
+		for i, id := range order {
+			if i%3 != 0 {
+				continue
+			}
+			tw := cmpTwin(inserted[id]).(map[string]interface{})
+			if Tstr(tValue(tw)) == Tstr(tValue(inserted[id])) {
+				continue
+			}
+			var op *Op
+			switch (i / 3) % 4 {
+			case 0:
+				op = &Op{Kind: "ReplaceById", Coll: "c", Id: id, Docs: []map[string]interface{}{tw}}
+			case 1:
+				op = &Op{Kind: "Save", Coll: "c", Docs: []map[string]interface{}{tw}}
+			case 2:
+				op = &Op{Kind: "UpdateById", Coll: "c", Id: id, U: Updater{Kind: "funconst", Doc: tw}}
+			default:
+				op = &Op{Kind: "UpdateFunc", Q: QSpec{Coll: "c", Steps: []QStep{{Kind: "where", C: &Crit{Kind: "cmp", Op: "OEq", Field: "_id", Val: Operand{Lit: id}}}}}, U: Updater{Kind: "funconst", Doc: tw}}
+			}
+			if r := rec(op); errKind(r) != "e0" {
+				f.failf("%s with a compare-equal document failed on %s: %s", op.Kind, be, Tstr(r))
+				continue
+			}
+			inserted[id] = tw
+			rewritten++
+		}
+		check("after compare-equal rewrites")
 		rec(&Op{Kind: "Reopen"})
 		check("after reopen")
 		if len(samples) < 2 && len(order) > 0 {
@@ -485,6 +567,14 @@ func runC18(seed int64, n int, out string) *RunReport {
 			}
 			// Set: unsupported values leave the document unchanged; supported ones obey the path laws
 			base := map[string]interface{}{"a": int64(1), "n": map[string]interface{}{"a": int64(2), "b": "x"}, "s": "str", "arr": []interface{}{int64(1)}}
+			if g.Chance(0.35) {
+				// a field whose NAME contains a dot (from a Go map key) next to the nested path of the same spelling:
+				// Get, Has and Set all address the nested path
+				base["n.a"] = "literal"
+				if g.Bool() {
+					base["q.r"] = int64(9)
+				}
+			}
 			name := pickOf(g, []string{"a", "n.a", "n.c", "s.k", "new", "n", "arr.x", "q.r.s", ""})
 			probe := pickOf(g, []string{"a", "n.a", "n.b", "s", "n", "new", "q.r", "arr"})
 			doc := d.NewDocumentOf(copyCanon(base))
